@@ -162,6 +162,34 @@ impl Stream for PutqStream {
                 }
             }
             // reply <i> ok|<code> [from-other]: node i answers request i
+            // foreign <what>: the socket sends one more request that is NOT the put's (another lookup, a table
+            // ping: it gets the next transaction id) and its addressee answers in time: that reply is not the put's
+            ["foreign", what] => {
+                let to = SocketAddrV4::new(std::net::Ipv4Addr::new(10, 99, 9, 9), 9999);
+                let tid = socket.request(to, dht::RequestSpecific { requester_id: Id::from_bytes([7; 20]).expect("id"), request_type: RequestTypeSpecific::Ping });
+                let _ = verif::drain_outbox();
+                let mt = if *what == "ok" {
+                    MessageType::Response(ResponseSpecific::Ping(PingResponseArguments { responder_id: Id::from_bytes([9; 20]).expect("id") }))
+                } else {
+                    MessageType::Error(ErrorSpecific { code: what.parse().expect("code"), description: "x".into() })
+                };
+                let bytes = Msg::new(tid, None, Some(self.me), mt, false).to_bytes().expect("enc");
+                verif::deliver(self.me, bytes, to);
+                let q = self.query.as_mut().expect("query");
+                match socket.verif_recv() {
+                    Some((m, _)) => {
+                        if q.inflight(m.transaction_id()) {
+                            out.violation("C09", "foreign-reply-claimed", format!("the reply to request {tid} — sent by the socket right after the put's requests, to another node, for something else — is claimed by the put as an answer to one of its own requests"));
+                            out.violation("C08", "foreign-reply-claimed", format!("the put counts the reply to request {tid}, which is not one of its requests, as {}", if *what == "ok" { "an acknowledgement" } else { "a rejection" }));
+                            out.violation("C16", "foreign-reply-claimed", format!("a put in flight claims the reply to request {tid} of another query: that query never sees its answer"));
+                            "claimed".into()
+                        } else {
+                            "unowned".into()
+                        }
+                    }
+                    None => "dropped".into(),
+                }
+            }
             ["timeout", ns] => {
                 let actual = socket.verif_inflight().3;
                 if ns.parse::<u64>().ok() == Some(actual) { "ok".into() } else { format!("timeout-is {actual}") }
@@ -435,6 +463,24 @@ pub fn run(out: &mut Out, seed: u64, thorough: bool, replay: Option<&str>) {
                 out.run(&mut s, "adv 60000000000".into());
                 out.run(&mut s, "check".into());
                 out.mark_distinct(fnv(format!("ackfirst{code}{n}{acks}").as_bytes()));
+            }
+        }
+    }
+    // ---- the request the socket sends right after the put's is not the put's: its reply (a bare response, an
+    //      error 301 / 302) is neither an acknowledgement nor a rejection of the put, wherever the id counter stands
+    for kind in ["imm", "mut"] {
+        for n in [1usize, 2, 5] {
+            for what in ["ok", "301", "302"] {
+                for tid in [None, Some(u32::MAX as u64 - 2), Some(65_534u64)] {
+                    case(out, &mut s, kind, 0, 0, tid);
+                    out.run(&mut s, format!("start {n} 0"));
+                    out.run(&mut s, format!("foreign {what}"));
+                    out.run(&mut s, "check".into());
+                    out.run(&mut s, "view".into());
+                    out.run(&mut s, "adv 60000000000".into());
+                    out.run(&mut s, "check".into());
+                    out.mark_distinct(fnv(format!("foreign{kind}{n}{what}{tid:?}").as_bytes()));
+                }
             }
         }
     }
